@@ -2,6 +2,14 @@ package main
 
 // Scripted in-process runs of the real FileLogger.router() through the verif init-driver
 // binary (apps/nsq_to_file built with -tags verif), traced with strace.
+//
+// Failing system calls: a run may carry a fault {sys, when, err}: strace makes the when-th
+// call of sys issued by the router thread fail with err (strace counts per thread and
+// injects in every thread: the hook locks the router to a thread of its own and first burns
+// padFor(sys) dummy calls there, so the target is call number pad+when of that thread and
+// no other thread gets that far).  faultMatrix() puts a failure at every position of the
+// write path of a fixed script (every write, fsync, close, link, unlink, open; plain and
+// gzip; with and without work dir); generated runs carry a random one.
 
 import (
 	"context"
@@ -46,6 +54,12 @@ type preFile struct {
 	B64 string `json:"b64"`
 }
 
+type faultIn struct {
+	Sys  string `json:"sys"`  // write | fsync | close | linkat | unlinkat | openat
+	When int    `json:"when"` // the when-th such call of the router fails (from 1)
+	Err  string `json:"err"`  // errno name
+}
+
 type input struct {
 	Kind   string      `json:"kind"` // run | black
 	Name   string      `json:"name"`
@@ -54,8 +68,37 @@ type input struct {
 	Pre    []preFile   `json:"pre"`
 	Events []hookEvent `json:"events"`
 	Ticks  bool        `json:"ticks"`
+	Fault  *faultIn    `json:"fault,omitempty"`
 	Black  *blackIn    `json:"black,omitempty"`
 	Strf   *strfIn     `json:"strf,omitempty"`
+}
+
+// dummy calls the router thread makes first (see the head of this file): more than any
+// other thread of the process ever makes of that system call
+func padFor(sys string) int {
+	if sys == "write" {
+		return 400 // other threads write to the runtime's eventfd now and then
+	}
+	return 64
+}
+
+var faultErrs = map[string][]string{
+	"write":    {"ENOSPC", "EIO", "EDQUOT", "EFBIG"},
+	"fsync":    {"EIO", "ENOSPC", "EDQUOT"},
+	"close":    {"EIO", "EDQUOT", "ENOSPC"},
+	"linkat":   {"EMLINK", "EPERM", "ENOSPC", "EXDEV", "EIO"},
+	"unlinkat": {"EIO", "EACCES", "EBUSY", "EROFS"},
+	"openat":   {"EMFILE", "ENOSPC", "EACCES", "ENFILE", "EROFS"},
+}
+
+func genFault(r *lib.Rand) *faultIn {
+	sys := []string{"write", "write", "write", "fsync", "fsync", "fsync", "close", "linkat", "unlinkat", "openat"}[r.Intn(10)]
+	max := 6
+	if sys == "write" {
+		max = 14
+	}
+	es := faultErrs[sys]
+	return &faultIn{Sys: sys, When: 1 + r.Intn(max), Err: es[r.Intn(len(es))]}
 }
 
 // the few strftime conversions the generator uses (UTC), to place colliding files
@@ -152,6 +195,9 @@ func genRun(r *lib.Rand, k int) input {
 	in.Ticks = !midInterval && !seconds && o.RotateIntervalNs == 0 && r.Chance(15)
 	if in.Ticks {
 		o.SyncIntervalNs = int64(25 * time.Millisecond)
+	}
+	if !in.Ticks && r.Chance(35) { // (with the ticker on, which tick a failing call belongs to is not scripted)
+		in.Fault = genFault(r)
 	}
 	in.Opts = o
 	// pre-existing files with colliding names
@@ -254,6 +300,51 @@ func fixedRuns() []input {
 	return out
 }
 
+// faultMatrix: one fixed script (first open, a message left pending across a rotation by
+// size, a half batch synced by HUP, a reopen, TERM) in plain/gzip x work-dir/no-work-dir,
+// with a failure injected at every position of its write path: each write(2), fsync, close,
+// link, unlink and open the router issues (the limits are a little above the number of such
+// calls the script makes; a failure planned beyond the end is a run without failure).
+func faultMatrix() []input {
+	b := func(s string) string { return base64.StdEncoding.EncodeToString([]byte(s)) }
+	var out []input
+	for _, gz := range []bool{false, true} {
+		for _, work := range []bool{false, true} {
+			o := hookOpts{Topic: "t", HostIdentifier: "h", SyncIntervalNs: int64(time.Hour), MaxInFlight: 2,
+				FilenameFormat: "<TOPIC><REV>.<DATETIME>.log", DatetimeFormat: "%Y", GZIP: gz, RotateSize: 8}
+			ev := []hookEvent{
+				{K: "msg", ID: 1, Body: b("m1")},     // open, write, Sync (a new file is synced at once), FIN 1
+				{K: "msg", ID: 2, Body: b("second")}, // written, pending (1 of 2)
+				// > rotate-size with 2 pending: Close (its fsync is the only one for 2; + move), open, write, Sync, FIN 3, FIN 2
+				{K: "msg", ID: 3, Body: b("m3")},
+				// an empty body; then Sync of a half batch, FIN 4, Close (+ move)
+				{K: "msg", ID: 4, Body: b("")}, {K: "hup"},
+			}
+			if !work { // (with a work dir the handle is stale after the move: the next write is fatal anyway)
+				ev = append(ev, hookEvent{K: "msg", ID: 5, Body: b("m5")})
+			}
+			ev = append(ev, hookEvent{K: "term"})
+			pre := []preFile{{Dir: "out", Rev: 1, B64: b("precious\n")}} // the rotation has to skip this name (stat / O_EXCL / oversized)
+			limits := map[string]int{"write": 12, "fsync": 7, "close": 3, "openat": 4}
+			if gz {
+				limits["write"] = 26
+			}
+			if work {
+				limits["linkat"], limits["unlinkat"] = 3, 3
+			}
+			for _, sys := range []string{"write", "fsync", "close", "linkat", "unlinkat", "openat"} {
+				for n := 1; n <= limits[sys]; n++ {
+					es := faultErrs[sys]
+					name := fmt.Sprintf("fault-%s-%d-gzip=%v-work=%v", sys, n, gz, work)
+					out = append(out, input{Kind: "run", Name: name, Work: work, Opts: o, Pre: pre, Events: ev,
+						Fault: &faultIn{Sys: sys, When: n, Err: es[n%len(es)]}})
+				}
+			}
+		}
+	}
+	return out
+}
+
 func dirName(d string) string {
 	if d == "work" {
 		return "DWork"
@@ -285,9 +376,14 @@ func coqOp(o obsOp, bodies map[int][]byte) string {
 		return fmt.Sprintf("(OFin (%d, %s))", o.ID, lib.CoqBytes(bodies[o.ID]))
 	case "exit":
 		return fmt.Sprintf("(OExit %d)", o.Code)
+	case "fail":
+		return fmt.Sprintf("(OFail %s %s)", coqFkind[o.What], k)
 	}
 	return "(OExit 99)"
 }
+
+var coqFkind = map[string]string{"write": "FWrite", "fsync": "FFsync", "close": "FClose", "link": "FLink", "unlink": "FUnlink", "open": "FOpen"}
+var sysWhat = map[string]string{"write": "write", "fsync": "fsync", "close": "close", "linkat": "link", "unlinkat": "unlink", "openat": "open"}
 
 func num(m marker, k string) int64 {
 	switch v := m[k].(type) {
@@ -350,6 +446,15 @@ func runScript(bin string, in input, scratch string) ([]lib.Case, string) {
 		}
 	}
 	script := map[string]interface{}{"opts": o, "events": in.Events}
+	traceSet := "trace=open,openat,write,pwrite64,fsync,fdatasync,ftruncate,close,link,linkat,unlink,unlinkat,rename,renameat,renameat2,exit_group"
+	straceArgs := []string{"-f", "-o", "", "-s", "4000000", "-xx", "-e", traceSet}
+	if f := in.Fault; f != nil {
+		if _, ok := sysWhat[f.Sys]; !ok || faultErrs[f.Sys] == nil || f.When < 1 {
+			return nil, "bad fault in input " + in.Name
+		}
+		script["pad"] = map[string]interface{}{"sys": f.Sys, "n": padFor(f.Sys)}
+		straceArgs = append(straceArgs, "-e", fmt.Sprintf("inject=%s:error=%s:when=%d", f.Sys, f.Err, padFor(f.Sys)+f.When))
+	}
 	sb, _ := json.Marshal(script)
 	scriptPath := filepath.Join(dir, "script.json")
 	markerPath := filepath.Join(dir, "marker.log")
@@ -357,8 +462,8 @@ func runScript(bin string, in input, scratch string) ([]lib.Case, string) {
 	os.WriteFile(scriptPath, sb, 0o644)
 	ctx, cancel := context.WithTimeout(context.Background(), 120*time.Second)
 	defer cancel()
-	cmd := exec.CommandContext(ctx, "strace", "-f", "-o", tracePath, "-s", "4000000", "-xx", "-e",
-		"trace=open,openat,write,fsync,fdatasync,ftruncate,close,link,linkat,unlink,unlinkat,rename,renameat,renameat2,exit_group", bin)
+	straceArgs[2] = tracePath
+	cmd := exec.CommandContext(ctx, "strace", append(straceArgs, bin)...)
 	cmd.Env = append(os.Environ(), "NSQ_VERIF_DRIVER=1", "NSQ_VERIF_SCRIPT="+scriptPath, "NSQ_VERIF_MARKER="+markerPath, "TZ=UTC")
 	cmd.Dir = dir
 	outb, _ := cmd.CombinedOutput()
@@ -512,10 +617,46 @@ func runScript(bin string, in input, scratch string) ([]lib.Case, string) {
 			}
 		}
 	}
+	if tr.Missed != "" { // the tracer failed a call that is not a file operation of the router (e.g. a runtime eventfd write)
+		ambiguous = "injected failure missed the write path"
+	}
 	if ambiguous != "" {
 		cases = append(cases, lib.Case{Name: in.Name + "/ambiguous", Coq: "(J19.Black (J19.mkBlack [] [] [] []))", Input: in,
-			Tags: []string{"kind=run-dropped", "dropped=" + ambiguous}, Nontrivial: false})
+			Tags: []string{"kind=run-dropped", "dropped=" + ambiguous}, Nontrivial: false, Obs: map[string]interface{}{"missed": tr.Missed}})
 		return cases, ""
+	}
+	// the injected failure in the model's terms (J19.r_faults)
+	var faults []string
+	mode := "plain"
+	if o.GZIP {
+		mode = "gzip"
+	}
+	switch {
+	case in.Fault == nil:
+		tags = append(tags, "fault=none")
+	case tr.Fault == nil:
+		tags = append(tags, "fault=planned-not-reached", "fault_planned="+in.Fault.Sys)
+	default:
+		fo := tr.Fault
+		tags = append(tags, "fault_planned="+in.Fault.Sys, "fault_errno="+in.Fault.Err,
+			fmt.Sprintf("fault=%s/%s/during-%s", fo.What, mode, fo.EvKind))
+		switch fo.What {
+		case "write":
+			if !o.GZIP {
+				faults = append(faults, fmt.Sprintf("(FWrite, %d, %d%%nat)", fo.MsgOrd, fo.Partial))
+				tags = append(tags, fmt.Sprintf("fault_write_partial=%v", fo.Partial > 0))
+			} else {
+				// a write(2) of the gzip stream: issued by the Write of the current message (member
+				// header, a full compressor block) or by the next gzipWriter.Close (rest, trailer)
+				if fo.EvKind == "msg" {
+					faults = append(faults, fmt.Sprintf("(FWrite, %d, 0%%nat)", fo.MsgOrd))
+				}
+				faults = append(faults, fmt.Sprintf("(FGzClose, %d, 0%%nat)", fo.Members+1))
+			}
+		default:
+			// the when-th fsync / close / link / unlink / open of the router is the when-th of the model
+			faults = append(faults, fmt.Sprintf("(%s, %d, 0%%nat)", coqFkind[fo.What], in.Fault.When))
+		}
 	}
 	var pre []string
 	for _, k := range preOrder {
@@ -543,11 +684,11 @@ func runScript(bin string, in input, scratch string) ([]lib.Case, string) {
 		exit = 99
 	}
 	tags = append(tags, fmt.Sprintf("exit=%d", exit), "kind=run")
-	coq := fmt.Sprintf("(J19.Run (J19.mkRun %s %s %s %s %s %d%%nat %s %s %s %s %s %s %d %s))",
+	coq := fmt.Sprintf("(J19.Run (J19.mkRun %s %s %s %s %s %d%%nat %s %s %s %s %s %s %s %d %s))",
 		lib.CoqBool(o.GZIP), lib.CoqZ(o.RotateSize), lib.CoqZ(o.RotateIntervalNs), lib.CoqBool(in.Work), lib.CoqBool(o.SkipEmpty), o.MaxInFlight,
-		lib.CoqBytes([]byte(fmt.Sprint(start["filename_format"]))), lib.CoqList(dts), lib.CoqBool(in.Ticks), lib.CoqList(pre),
+		lib.CoqBytes([]byte(fmt.Sprint(start["filename_format"]))), lib.CoqList(dts), lib.CoqBool(in.Ticks), lib.CoqList(faults), lib.CoqList(pre),
 		lib.CoqList(jevs), lib.CoqList(ops), exit, final)
 	cases = append(cases, lib.Case{Name: in.Name, Coq: coq, Input: in, Tags: tags, Nontrivial: nmsg > 0,
-		Obs: map[string]interface{}{"exit": tr.ExitCode, "ops": len(tr.Ops), "unknown": tr.Unknown, "fins": kinds["fin"]}})
+		Obs: map[string]interface{}{"exit": tr.ExitCode, "ops": len(tr.Ops), "unknown": tr.Unknown, "fins": kinds["fin"], "fault": tr.Fault}})
 	return cases, ""
 }
